@@ -248,7 +248,7 @@ func runID1(m *Model, r *RuleResult) {
 	// isCallerOwnMap: the map is a free variable (or a cell) bound from a parameter of an exported constructor of package autog
 	var isCallerOwnMap func(mv ssa.Value, depth int) bool
 	isCallerOwnMap = func(mv ssa.Value, depth int) bool {
-		if depth > 4 {
+		if depth > 10 {
 			return false
 		}
 		switch x := mv.(type) {
@@ -258,7 +258,27 @@ func runID1(m *Model, r *RuleResult) {
 			if fn.Parent() == nil && fn.Name() == "Populate" && fn.Signature.Recv() != nil && len(fn.Params) > 0 && fn.Params[0] == x && shortPkg(pkgPathOf(fn)) == "graph" {
 				return true
 			}
-			return fn.Parent() == nil && fn.Object() != nil && fn.Object().Exported() && pkgPathOf(fn) == modPath
+			if fn.Parent() == nil && fn.Object() != nil && fn.Object().Exported() && pkgPathOf(fn) == modPath {
+				return true
+			}
+			// a parameter of an unexported helper of package autog: the caller's own map when every call site passes one
+			if fn.Parent() == nil && pkgPathOf(fn) == modPath && fn.Object() != nil && !fn.Object().Exported() {
+				pi := paramIndex(fn, x)
+				n, all := 0, true
+				for _, g := range m.Src {
+					if pkgPathOf(g) != modPath {
+						continue
+					}
+					for _, cs := range staticCalls(g, func(c *ssa.Function) bool { return c == fn }) {
+						n++
+						if pi < 0 || pi >= len(cs.Common().Args) || !isCallerOwnMap(cs.Common().Args[pi], depth+1) {
+							all = false
+						}
+					}
+				}
+				return n > 0 && all
+			}
+			return false
 		case *ssa.FreeVar:
 			fn := x.Parent()
 			idx := -1
